@@ -19,6 +19,10 @@ type connStatus struct {
 	*sync.RWMutex
 	cond    *sync.Cond
 	current connStatusValue
+	// connects counts the transitions into connStatusConnected, i.e. the wire connections installed after the first
+	// one. A request remembers the count it started under, so that a failure of an already replaced wire connection
+	// is not mistaken for a failure of the current one.
+	connects uint64
 }
 
 func newConnState() *connStatus {
@@ -65,8 +69,33 @@ func (e *connStatus) CompareAndSwapNot(old, new connStatusValue) (swapped bool) 
 	return true
 }
 
+// CompareAndSwapNotSince is CompareAndSwapNot for a caller that observed the status when connects was `connects`:
+// if a new wire connection has been installed since then, the caller's reason for the transition is stale and the
+// status is left alone. It still reports false only when the status is `old`.
+func (e *connStatus) CompareAndSwapNotSince(connects uint64, old, new connStatusValue) (proceed bool) {
+	e.Lock()
+	defer e.Unlock()
+	if e.IsWithoutLock(old) {
+		return false
+	}
+	if e.connects == connects {
+		e.SwapWithoutLock(new)
+	}
+	return true
+}
+
+// Connects returns the number of transitions into connStatusConnected so far.
+func (e *connStatus) Connects() uint64 {
+	e.RLock()
+	defer e.RUnlock()
+	return e.connects
+}
+
 func (e *connStatus) SwapWithoutLock(state connStatusValue) (old connStatusValue) {
 	old = e.current
+	if state == connStatusConnected && old != connStatusConnected {
+		e.connects++
+	}
 	e.current = state
 	e.cond.Broadcast()
 	return
